@@ -645,6 +645,168 @@ pub fn lig_vanishing_forgery(rec: &mut Rec) {
     }
 }
 
+/// Coordinated replacement of BOTH vectors of a linear-code opening.  A verifier that tests the two column
+/// equations <r,col> = E(v_wf) and <b,col> = E(v) under one combination  v_wf + s*v  (or  s*v_wf + v)  is only
+/// sound when  s  is drawn after both vectors are bound; for every scalar  s  that the prover can predict from a
+/// prefix of the transcript (after the root, after the row challenge, after v_wf', after the point) the pair
+/// (v_wf + d, v - d/s) resp. (v_wf + d, v - s*d) passes such a merged test on genuine columns.  The proof is rebuilt
+/// completely (positions from a replay of the transcript, columns from the extended matrix, paths from a rebuilt
+/// tree), so every other component is genuine; the control with d = 0 must be accepted.
+pub fn lig_coordinated_vectors_forgery(rec: &mut Rec) {
+    use crate::checks::c10::RefOps;
+    use crate::mirror::{convert, MComm, MProof, MSingle, MState};
+    use crate::refm::{inner, modulus_of, ref_indices, ref_t};
+    use ark_crypto_primitives::merkle_tree::MerkleTree;
+    use ark_crypto_primitives::sponge::CryptographicSponge;
+    use ark_ff::{Field, Zero};
+    use ark_poly::DenseUVPolynomial;
+    use ark_poly_commit::linear_codes::LinCodeParametersInfo;
+    use ark_serialize::CanonicalSerialize;
+    type S = SLig;
+    for (deg, rho_inv) in [(255usize, 4usize), (1023, 2)] {
+        for pre in [0usize, 2] {
+            let id = format!("LIG/forge/coordinated-vectors/deg={}/rho_inv={}/pre={}", deg, rho_inv, pre);
+            if !rec.take(&id) {
+                continue;
+            }
+            rec.dim("scheme", "LIG");
+            let mut cfg = KeyCfg::uni(1 << 12, 1 << 12, 1, None);
+            cfg.lc = Some((128, rho_inv, true));
+            let keys = match build_keys::<S>(&cfg, rec.seed) {
+                Ok(k) => k,
+                Err(_) => continue,
+            };
+            let coeffs = crate::alpha::rho_stream::<Fr381>(rec.seed, 43, deg + 1);
+            let polys: Vec<LP<S>> = vec![lp::<S>("p0", UP::<Fr381>::from_coefficients_slice(&coeffs), None, None)];
+            let c = match commit_set::<S>(&keys, polys, rec.seed, 0) {
+                Ok(c) => c,
+                Err(_) => continue,
+            };
+            let z = crate::alpha::rho::<Fr381>(rec.seed, 1);
+            let s1 = match open_single::<S>(&keys, &c, &[0], &z, pre, rec.seed, 0) {
+                Ok(s) => s,
+                Err(_) => continue,
+            };
+            rec.op(2);
+            let bp: BPf<S> = vec![s1.proof.clone()].into();
+            let honest: Vec<Vec<MProof<Fr381>>> = convert(&bp);
+            let cm: MComm = convert(c.comms[0].commitment());
+            let st: MState<Fr381> = convert(&c.states[0]);
+            let (n_rows, n_cols, n_ext) = (cm.metadata.n_rows, cm.metadata.n_cols, cm.metadata.n_ext_cols);
+            let tree = match MerkleTree::<MT>::new(&(), &(), st.leaves.clone()) {
+                Ok(t) => t,
+                Err(_) => continue,
+            };
+            if tree.root() != cm.root {
+                panic!("MACHINERY: rebuilt tree has another root");
+            }
+            let t = match ref_t(&modulus_of::<Fr381>(), keys.vk.sec_param(), keys.vk.distance(), n_ext) {
+                Some(t) => t,
+                None => continue,
+            };
+            let (v0, wf0) = (honest[0][0].opening.v.clone(), honest[0][0].well_formedness.clone().unwrap_or_default());
+            if wf0.len() != n_cols || v0.len() != n_cols {
+                continue;
+            }
+            let mut a = Vec::new();
+            let mut pw = Fr381::one();
+            for _ in 0..n_cols {
+                a.push(pw);
+                pw *= z;
+            }
+            let mut rb = Vec::new();
+            cm.root.serialize_compressed(&mut rb).unwrap();
+            let comms: Vec<&LCm<S>> = c.comms.iter().collect();
+            // defect vectors
+            let dr = crate::alpha::rho_stream::<Fr381>(rec.seed, 47, n_cols);
+            let mut unit = vec![Fr381::zero(); n_cols];
+            unit[0] = Fr381::one();
+            let mut last = vec![Fr381::zero(); n_cols];
+            last[n_cols - 1] = crate::alpha::rho::<Fr381>(rec.seed, 5);
+            let defects: Vec<(&str, Vec<Fr381>)> = vec![("zero(control)", vec![Fr381::zero(); n_cols]), ("unit", unit), ("last", last), ("dense", dr)];
+            for (dn, d) in defects.iter() {
+                for prefix in ["after-root", "after-row-challenge", "after-wf", "after-point"] {
+                    for form in ["wf+s*v", "s*wf+v"] {
+                        let wf: Vec<Fr381> = wf0.iter().zip(d.iter()).map(|(x, y)| *x + *y).collect();
+                        // the scalar a merged test would use when it is drawn at this prefix
+                        let mut sp = sponge_pre::<Fr381>(pre);
+                        sp.absorb(&rb);
+                        let s = if prefix == "after-root" {
+                            sp.clone().squeeze_field_elements::<Fr381>(1)[0]
+                        } else {
+                            let _r: Vec<Fr381> = sp.squeeze_field_elements(n_rows);
+                            if prefix == "after-row-challenge" {
+                                sp.clone().squeeze_field_elements::<Fr381>(1)[0]
+                            } else {
+                                sp.absorb(&wf);
+                                if prefix == "after-wf" {
+                                    sp.clone().squeeze_field_elements::<Fr381>(1)[0]
+                                } else {
+                                    sp.absorb(&vec![z]);
+                                    sp.clone().squeeze_field_elements::<Fr381>(1)[0]
+                                }
+                            }
+                        };
+                        if s.is_zero() {
+                            continue;
+                        }
+                        let k = if form == "wf+s*v" { s.inverse().unwrap() } else { s };
+                        let v: Vec<Fr381> = v0.iter().zip(d.iter()).map(|(x, y)| *x - k * *y).collect();
+                        // positions the verifier will derive for these vectors
+                        let mut sp = sponge_pre::<Fr381>(pre);
+                        sp.absorb(&rb);
+                        let _r: Vec<Fr381> = sp.squeeze_field_elements(n_rows);
+                        sp.absorb(&wf);
+                        sp.absorb(&vec![z]);
+                        sp.absorb(&v);
+                        let idx = ref_indices(n_ext, t, &mut sp);
+                        let mut columns = Vec::new();
+                        let mut paths = Vec::new();
+                        for q in idx.iter() {
+                            columns.push((0..n_rows).map(|r| st.ext_mat.entries[r][*q]).collect::<Vec<Fr381>>());
+                            paths.push(tree.generate_proof(*q).expect("path"));
+                        }
+                        let forged = vec![vec![MProof { opening: MSingle { paths, v: v.clone(), columns }, well_formedness: Some(wf.clone()) }]];
+                        let fb: BPf<S> = convert(&forged);
+                        let list: Vec<Pf<S>> = fb.into();
+                        let value = inner(&v, &a);
+                        let control = *dn == "zero(control)";
+                        let dec = check_single::<S>(&keys, &comms, &z, &[value], &list[0], pre, rec.seed, 0);
+                        let mut rs = sponge_pre::<Fr381>(pre);
+                        let refd = <S as RefOps>::ref_check(&keys.vk, &comms, &z, &[value], &list[0], &mut rs);
+                        if control {
+                            rec.count_points(1);
+                            rec.class("control-rebuilt-honest-proof");
+                            if value != s1.values[0] || !refd {
+                                panic!("MACHINERY: rebuilt honest proof is not the honest proof");
+                            }
+                            if !dec.accepted() {
+                                rec.violation("C03/LIG/check/rebuilt-honest-proof-refused", &id, format!("an honest proof rebuilt from the committer state is refused: {}", dec.class()));
+                            }
+                            continue;
+                        }
+                        if value == s1.values[0] {
+                            continue;
+                        }
+                        if refd {
+                            panic!("MACHINERY: the reference relation accepts the coordinated forgery");
+                        }
+                        expect_reject(
+                            rec,
+                            &dec,
+                            "LIG",
+                            "check",
+                            "forged:both-vectors-replaced-in-a-coordinated-way",
+                            &format!("{}/{}/{}/{}", id, dn, prefix, form),
+                            format!("v_wf + d and v - d*k with k from the scalar predictable {}; combination {}; genuine columns and paths at the replayed positions", prefix, form),
+                        );
+                    }
+                }
+            }
+        }
+    }
+}
+
 pub fn run(rec: &mut Rec) {
     let (w, ms) = if rec.thorough() { (Width::Wide, 3) } else { (Width::Medium, 2) };
     crate::for_each_scheme!(S, {
@@ -656,6 +818,7 @@ pub fn run(rec: &mut Rec) {
     ipa_unbound_hiding_forgery(rec);
     hyrax_stretched_z_forgery(rec);
     lig_vanishing_forgery(rec);
+    lig_coordinated_vectors_forgery(rec);
     equal_weight_forgery::<SMar>(rec, &|vk| vk.vk.g, &|p, w| ark_poly_commit::kzg10::Proof { w, random_v: p.random_v }, &|p| p.w);
     equal_weight_forgery::<SSon>(rec, &|vk| vk.g, &|p, w| ark_poly_commit::kzg10::Proof { w, random_v: p.random_v }, &|p| p.w);
     crate::special::c03_special(rec);
